@@ -82,6 +82,21 @@ Fixpoint pu_loop (acc : N) (s : list N) : option N :=
 Definition parse_uint (s : list N) : option N :=
   match s with [] => None | _ => pu_loop 0 s end.
 
+(** strconv.ParseUint(s, 10, 64) with its error class: a range error is reported as soon
+    as the accumulator overflows, even when a non-digit follows later. *)
+Inductive pures := PuOk (n : N) | PuSyntax | PuRange.
+Fixpoint pu3 (acc : N) (s : list N) : pures :=
+  match s with
+  | [] => PuOk acc
+  | c :: r =>
+      if negb (is_digit c) then PuSyntax
+      else if cutoff64 <=? acc then PuRange
+      else let n1 := acc * 10 + (c - 48) in
+           if 2 ^ 64 <=? n1 then PuRange else pu3 n1 r
+  end.
+Definition parse_uint3 (s : list N) : pures :=
+  match s with [] => PuSyntax | _ => pu3 0 s end.
+
 (** strconv.ParseInt(s, 10, 64). *)
 Definition parse_int (s : list N) : option Z :=
   match s with
@@ -174,6 +189,16 @@ Definition parse_bytes (s : list N) : option N :=
       end
   end.
 
+(** toml.parseBytesUnsigned: a plain decimal integer is parsed exactly by strconv.ParseUint
+    (repair of finding size-above-2p53-not-representable); a range error rejects; only a
+    syntax error falls back to humanize. *)
+Definition parse_bytes_unsigned (text : list N) : option N :=
+  match parse_uint3 text with
+  | PuOk v => Some v
+  | PuRange => None
+  | PuSyntax => parse_bytes text
+  end.
+
 (** toml.parseBytesSigned *)
 Definition parse_bytes_signed (text : list N) : option Z :=
   let t := trim_space text in
@@ -181,7 +206,7 @@ Definition parse_bytes_signed (text : list N) : option Z :=
                     | c :: r => if c =? 45 then (true, r) else (false, t)
                     | [] => (false, t)
                     end in
-  match parse_bytes t' with
+  match parse_bytes_unsigned t' with
   | None => None
   | Some v =>
       if neg then
@@ -230,10 +255,11 @@ Definition match_v1 (signed : bool) (text : list N) : option (list N * option N)
       end
   end.
 
-(** bareIECSuffixRe [\A(.*[0-9\s])\s*([kKmMgG])\s*\z] and rewriteBareIECSuffix
+(** bareIECSuffixRe [(?s)\A(.*[0-9\s])\s*([kKmMgG])\s*\z] and rewriteBareIECSuffix
     (derived recogniser: the last non-space byte is the suffix letter; the prefix P before
-    it is non-empty, contains no '\n' before its trailing [\s]-run, and that run is
-    non-empty or preceded by a digit; the result is TrimSpace(P) + " " + canonical). *)
+    it is non-empty and its trailing [\s]-run is non-empty or preceded by a digit; the
+    result is TrimSpace(P) + " " + canonical).  With the (?s) flag (repair of finding
+    ssizev1-bare-suffix-after-newline-is-decimal) [.] also matches a newline. *)
 Definition rewrite_bare (text : list N) : list N :=
   let t1 := rstrip is_re_space text in
   match rev t1 with
@@ -241,12 +267,11 @@ Definition rewrite_bare (text : list N) : list N :=
       if is_bare_suffix c then
         let P := rev rp in
         let Q := rstrip is_re_space P in
-        let nonl := forallb (fun x => negb (x =? 10)) Q in
         let tail_ok := (Nat.ltb (length Q) (length P))
                        || match rev Q with d :: _ => is_digit d | [] => false end in
         match P with
         | [] => text
-        | _ => if nonl && tail_ok then trim_space P ++ [32] ++ bare_canon c else text
+        | _ => if tail_ok then trim_space P ++ [32] ++ bare_canon c else text
         end
       else text
   | [] => text
@@ -273,12 +298,12 @@ Definition unmarshal_v1 (signed : bool) (text : list N) : option Z :=
   | None =>
       let rw := rewrite_bare text in
       if signed then parse_bytes_signed rw
-      else option_map Z.of_N (parse_bytes rw)
+      else option_map Z.of_N (parse_bytes_unsigned rw)
   end.
 
 (** SizeV2 / SSizeV2: humanize only. *)
 Definition unmarshal_v2 (signed : bool) (text : list N) : option Z :=
-  if signed then parse_bytes_signed text else option_map Z.of_N (parse_bytes text).
+  if signed then parse_bytes_signed text else option_map Z.of_N (parse_bytes_unsigned text).
 
 (* ------------------------------------------------------------------ *)
 (** * time.Duration.String *)
